@@ -68,6 +68,9 @@ func genTree(r *Rng, o TreeOpts) *Tree {
 	usedAt := map[uint64]int{o.RootNum: 1}
 	tip := t.Root
 	speed := map[string]int{} // per-branch finality lag (policy 2)
+	// a quarter of the trees with skipped numbers are sparse (slot-like numbering: most blocks skip 1-4 heights), so that
+	// a few blocks span more heights than any retention value
+	sparse := o.SkipNums && r.Intn(4) == 0
 	for i := 0; i < o.N; i++ {
 		var parent TBlock
 		if r.Intn(10) < o.ForkBias {
@@ -80,7 +83,11 @@ func genTree(r *Rng, o TreeOpts) *Tree {
 			parent = tip
 		}
 		num := parent.Num + 1
-		if o.SkipNums && r.Intn(5) == 0 {
+		if sparse {
+			if r.Intn(4) > 0 {
+				num += uint64(1 + r.Intn(4))
+			}
+		} else if o.SkipNums && r.Intn(5) == 0 {
 			num += uint64(1 + r.Intn(2))
 		}
 		letter := byte('a' + usedAt[num])
